@@ -19,6 +19,17 @@ def sweep(res, prof, n_total, seed_value, shard, nshards, body, case_timeout=600
     return engine.hyp_sweep(res, strat, body, n, seed_value * 1000 + shard, case_timeout=case_timeout)
 
 
+N_ADV = {"quick": 96, "thorough": 2000}
+
+
+def adv_sweep(res, prof, tier, seed_value, shard, nshards, body, exclude=(), n=None):
+    """The 'advopts' part shared by several checks: scenarios of `prof` with 1-3 advanced options (scenario.ADV_OPTS minus
+    `exclude`) set to non-default values; same body and oracle as the check's natural runs."""
+    pool = tuple(o for o in scenario.ADV_OPTS if o[0] not in exclude)
+    return sweep(res, None, n or N_ADV[tier], seed_value + 4242, shard, nshards, body,
+                 strategy=scenario.with_adv_opts(prof, pool=pool))
+
+
 def field_minimise(case, sig, body, max_runs=12, simplifier=scenario.simplifications):
     """Greedy field-level minimisation (ddmin over scenario fields): try each simplification, keep it
     if the same signature still occurs. Bounded by max_runs re-executions."""
